@@ -4,6 +4,8 @@
 // the output oracle.
 #include "xform.hpp"
 #include "sched.hpp"
+#include <xalanc/XPath/Function.hpp>
+#include <xalanc/XPath/XObjectFactory.hpp>
 #include <thread>
 #include <mutex>
 
@@ -51,6 +53,25 @@ struct TaskCtx {
     SimMemoryManager mm;
 };
 
+// an extension function every reader installs on its own transformer under one name, each with its own answer: a per-transformer
+// function is nobody else's business, whatever the other threads install meanwhile
+class FunctionTagged : public Function {
+public:
+    explicit FunctionTagged(int t) : tag(t) {}
+    XObjectPtr execute(XPathExecutionContext& ctx, XalanNode* context, const XObjectArgVectorType& args, const Locator* locator) const override {
+        if (args.size() != 1) generalError(ctx, context, locator);
+        simsched::point(2);
+        const double v = args[0]->num(ctx);
+        return ctx.getXObjectFactory().createNumber(v * v + 1000.0 * (tag + 1));
+    }
+    using Function::execute;
+    FunctionTagged* clone(MemoryManager& m) const override { return XalanCopyConstruct(m, *this); }
+protected:
+    const XalanDOMString& getError(XalanDOMString& r) const override { r.assign("ext:sq() takes one argument"); return r; }
+private:
+    int tag;
+};
+
 void runTask(TaskCtx& t, Shared& sh, const Json& plan) {
     simsched::taskBegin(t.id);
     {
@@ -58,6 +79,7 @@ void runTask(TaskCtx& t, Shared& sh, const Json& plan) {
         XEnv env(&t.mm, true);
         for (auto& kv : plan.at("resources").o) env.fs.put(kv.first, kv.second.s);
         env.resolver->yield = []() { simsched::point(2); };
+        if (plan.boolean("extfn")) env.T->installExternalFunction(xs("urn:x-ext", env.manager()), xs("sq", env.manager()), FunctionTagged(t.id));
         for (auto& j : t.jobs) {
             JobOut o; SimSink sink; sink.yield = []() { simsched::point(2); };
             size_t di = (size_t)j.num("doc") % (sh.sources.size() / 2), si = (size_t)j.num("sheet") % sh.sheets.size(); bool w = j.boolean("wrapper");
@@ -113,9 +135,10 @@ struct C07 : public Driver {
         // facilities with lazily initialised state, forced in rotation
         static const std::vector<std::string> lazy = { "key", "keyids", "num-single", "num-multi", "num-any", "num-nocount", "id", "docfn", "fmtnum-df", "sort2", "attrset", "calltmpl", "modes", "exslt-set", "nodeset", "fmtnum", "rtf", "lang", "genid", "number-value" };
         auto allowed = featuresExcept({ "message", "doe" });
+        const bool extfn = root.fork("extfn").chance(1, 3); p["extfn"] = extfn;     // every reader installs ext:sq on its own transformer, each with its own answer
         Json feats = Json::array();
         for (int i = 0; i < ns; ++i) {
-            SSCfg sc; sc.on = pickFeatures(g, allowed, 1, 4); sc.on.insert(lazy[(run * 2 + i) % lazy.size()]); sc.on.insert(g.pick(lazy));
+            SSCfg sc; sc.on = pickFeatures(g, allowed, 1, 4); if (extfn) sc.on.insert("extfn"); sc.on.insert(lazy[(run * 2 + i) % lazy.size()]); sc.on.insert(g.pick(lazy));
             sc.docFn = sc.on.count("docfn") > 0 || g.chance(1, 4); sc.useImport = g.chance(1, 4); sc.useInclude = g.chance(1, 5); sc.stripSpace = g.chance(1, 3);
             static const std::vector<std::string> orders = { "doc", "rk", "rev" }; sc.order = g.pick(orders);
             GenSS s = genStylesheet(g, sc, gd[0]); sheets.push(s.xsl); for (auto& kv : s.resources) res[kv.first] = kv.second; for (auto& f : s.features) feats.push(f);
